@@ -150,9 +150,9 @@ class Ctx:
         import CircuitCalculator.Network.loaders as ld
         dl.open = self.disk.open
         ld.open = self.disk.open
-        from .simfs import GlobalFS
+        from . import simfs
         self.disk.mtime_mode = self.cfg.get("mtime_mode", "fine")
-        GlobalFS(self.disk).install()      # the process is a short-lived fork: nothing to undo
+        simfs.activate(self.disk)          # the dispatch layer was installed before the library was imported
         self.idsim = IdSim()
         for name, m in list(sys.modules.items()):
             if m is not None and (name == "CircuitCalculator" or name.startswith("CircuitCalculator.")):
